@@ -376,6 +376,36 @@ theorem adc_value_uses_source_exponents (g : List K) (x : K) :
   congr 2
   omega
 
+/-- the gain step wired from the regenerated tables (order source and einsum subscripts per `gain.ndim`, power-cube exponents) is
+the model's gain polynomial, for all four gain forms: the hand dispatch `Gain.at`/`polyGain` and the source's dispatch agree -/
+theorem gain_dispatch_matches_model (gain : Gain K) (x : K) (i j : Int) :
+    gainFromSource gain x i j = some (polyGain (gain.at i j) x) := by
+  have hsum : ∀ g : List K, (sumRange g.length fun d => npow x (Gen.adcCubeExponent g.length d).toNat * g.getD d 0) = polyGain g x := by
+    intro g
+    rw [adc_value_uses_source_exponents, sumRange_eq_sum]
+    apply Finset.sum_congr rfl
+    intro d _
+    rw [Det.npow_eq_pow, mul_comm]
+  cases gain with
+  | scalar g =>
+    have h := hsum [g]
+    simp only [List.length_singleton] at h
+    simp only [gainFromSource, Gain.ndim, Gain.at, Gen.adcOrderSource, Gen.adcEinsum, List.lookup, einsumAt]
+    simpa using congrArg some h
+  | poly g =>
+    have h := hsum g
+    simp only [gainFromSource, Gain.ndim, Gain.at, Gen.adcOrderSource, Gen.adcEinsum, List.lookup, einsumAt]
+    simpa using congrArg some h
+  | perPixel g =>
+    have h := hsum [g i j]
+    simp only [List.length_singleton] at h
+    simp only [gainFromSource, Gain.ndim, Gain.at, Gen.adcOrderSource, Gen.adcEinsum, List.lookup, einsumAt]
+    simpa [sumRange] using congrArg some h
+  | perPixelPoly n g =>
+    have h := hsum ((List.range n).map fun d => g d i j)
+    simp only [gainFromSource, Gain.ndim, Gain.at, Gen.adcOrderSource, Gen.adcEinsum, List.lookup, einsumAt]
+    simpa using congrArg some h
+
 /-- the four gain forms: a scalar and a per-pixel gain multiply the (clipped) count; a coefficient vector and a per-pixel
 coefficient cube are the polynomial `Σ_d g[d]·x^(n-d)` -/
 theorem adc_gain_forms (g : K) (gl : List K) (gp : Int → Int → K) (n : Nat) (gc : Nat → Int → Int → K) (x : K) (i j : Int) :
